@@ -14,7 +14,7 @@ use serde::{Deserialize, Serialize};
 use std::collections::BTreeMap;
 
 pub const MODEL: &str = "{
-    Person{ name:String, nick:String nullable, age:Integer default 0, parents:[Person], pet:Pet nullable }
+    Person{ name:String, nick:String nullable, age:Integer default 0, parents:[Person], pet:Pet nullable, mentor:Person nullable }
     Pet{ name:String }
 }";
 
@@ -32,6 +32,9 @@ pub struct Mut {
     pub age: bool,
     pub parent: Option<usize>,
     pub pet: Option<usize>,
+    /// single reference to one of the rows `parent` can also point to (two fields, same target)
+    #[serde(default)]
+    pub mentor: Option<usize>,
     pub room: Option<usize>,
     /// the assigned scalar values are the ones the row was created with (an assignment that may change nothing)
     #[serde(default)]
@@ -64,6 +67,9 @@ fn shape(m: &Mut) -> String {
     if m.pet.is_some() {
         v.push("ref-replace")
     }
+    if m.mentor.is_some() {
+        v.push("ref-replace-same-target-set")
+    }
     if m.room.is_some() {
         v.push("room-move")
     }
@@ -75,12 +81,13 @@ fn shape(m: &Mut) -> String {
 
 fn gen_mut(r: &mut Rng) -> Mut {
     let mut m = Mut::default();
-    match r.weighted(&[30, 25, 15, 12, 10, 8]) {
+    match r.weighted(&[30, 25, 15, 12, 10, 8, 10]) {
         0 => m.name = true,
         1 => m.nick = true,
         2 => m.age = true,
         3 => m.parent = Some(r.usize(2)),
         4 => m.pet = Some(r.usize(2)),
+        6 => m.mentor = Some(r.usize(2)),
         _ => {
             m.room = Some(1);
             m.name = true;
@@ -147,6 +154,18 @@ pub fn directed(property: &str) -> Vec<Trace> {
             false,
             vec![Step::Issue { m: name.clone() }, Step::Flush, Step::Issue { m: Mut { name: true, keep: true, parent: Some(0), ..Default::default() } }, Step::Flush],
         ),
+        mk(
+            "C16 one at a time: the same row is added as a parent and set as mentor, then the mentor is replaced",
+            false,
+            vec![
+                Step::Issue { m: Mut { parent: Some(0), ..Default::default() } },
+                Step::Flush,
+                Step::Issue { m: Mut { mentor: Some(0), ..Default::default() } },
+                Step::Flush,
+                Step::Issue { m: Mut { mentor: Some(1), name: true, ..Default::default() } },
+                Step::Flush,
+            ],
+        ),
         mk("C16 two mutations pipelined on the mutation stream", true, vec![Step::Issue { m: name }, Step::Issue { m: nick }, Step::Flush]),
     ]
 }
@@ -165,6 +184,7 @@ struct RowState {
     age: i64,
     parents: Vec<String>,
     pet: Option<String>,
+    mentor: Option<String>,
     room: String,
 }
 
@@ -209,7 +229,7 @@ fn run(w: &mut World, cfg: &Cfg, steps: &[Step]) -> Result<(), String> {
         mk(&mut n, "mutate { Pet{ room_id:$r name:$n } }", serde_json::json!({"r": rooms[0], "n": "pet0"}), "Pet")?,
         mk(&mut n, "mutate { Pet{ room_id:$r name:$n } }", serde_json::json!({"r": rooms[0], "n": "pet1"}), "Pet")?,
     ];
-    let initial = RowState { name: "name0".into(), nick: Some("nick0".into()), age: 0, parents: vec![], pet: None, room: rooms[0].clone() };
+    let initial = RowState { name: "name0".into(), nick: Some("nick0".into()), age: 0, parents: vec![], pet: None, mentor: None, room: rooms[0].clone() };
 
     // the mutations, numbered; values are unique so every field value is attributable to one mutation
     let mut muts: Vec<(usize, Mut)> = vec![];
@@ -250,6 +270,10 @@ fn run(w: &mut World, cfg: &Cfg, steps: &[Step]) -> Result<(), String> {
                 if let Some(t) = m.pet {
                     fields.push_str(" pet:{id:$pt}");
                     p.insert("pt".into(), pets[t % 2].clone().into());
+                }
+                if let Some(t) = m.mentor {
+                    fields.push_str(" mentor:{id:$mt}");
+                    p.insert("mt".into(), others[t % 2].clone().into());
                 }
                 if let Some(r) = m.room {
                     fields.push_str(" room_id:$r");
@@ -349,6 +373,7 @@ fn run(w: &mut World, cfg: &Cfg, steps: &[Step]) -> Result<(), String> {
     let rid = dv::uid_decode(&row).map_err(|e| e.to_string())?;
     let mut parents: Vec<String> = vec![];
     let mut pet: Option<String> = None;
+    let mut mentor: Option<String> = None;
     {
         let mut st = conn.prepare("SELECT label, dest FROM _edge WHERE src = ? ORDER BY label, dest").map_err(|e| e.to_string())?;
         let mut rows = st.query([rid.as_slice()]).map_err(|e| e.to_string())?;
@@ -358,14 +383,23 @@ fn run(w: &mut World, cfg: &Cfg, steps: &[Step]) -> Result<(), String> {
             let d: Vec<u8> = rw.get(1).map_err(|e| e.to_string())?;
             by_label.entry(l).or_default().push(dv::base64_encode(&d));
         }
-        for (_, ds) in by_label {
-            if ds.iter().all(|d| others.contains(d)) {
-                parents = ds;
-            } else if ds.iter().all(|d| pets.contains(d)) {
-                if ds.len() > 1 {
-                    w.violation("C16", "mixed-state/two-targets-in-a-single-reference", format!("the single reference 'pet' holds {} targets", ds.len()));
+        // labels follow the declaration order of the model: parents "35", pet "36", mentor "37"
+        for (label, ds) in by_label {
+            match label.as_str() {
+                "35" => parents = ds,
+                "36" => {
+                    if ds.len() > 1 {
+                        w.violation("C16", "mixed-state/two-targets-in-a-single-reference", format!("the single reference 'pet' holds {} targets", ds.len()));
+                    }
+                    pet = ds.first().cloned();
                 }
-                pet = ds.first().cloned();
+                "37" => {
+                    if ds.len() > 1 {
+                        w.violation("C16", "mixed-state/two-targets-in-a-single-reference", format!("the single reference 'mentor' holds {} targets", ds.len()));
+                    }
+                    mentor = ds.first().cloned();
+                }
+                other => return Err(format!("unexpected reference label {other}")),
             }
         }
     }
@@ -376,6 +410,7 @@ fn run(w: &mut World, cfg: &Cfg, steps: &[Step]) -> Result<(), String> {
         age: p["age"].as_i64().unwrap_or(0),
         parents,
         pet,
+        mentor,
         room: p["room_id"].as_str().unwrap_or("").to_string(),
     };
 
@@ -399,6 +434,9 @@ fn run(w: &mut World, cfg: &Cfg, steps: &[Step]) -> Result<(), String> {
         }
         if let Some(t) = m.pet {
             s.pet = Some(pets[t % 2].clone());
+        }
+        if let Some(t) = m.mentor {
+            s.mentor = Some(others[t % 2].clone());
         }
         if let Some(r) = m.room {
             s.room = rooms[r % 2].clone();
